@@ -183,6 +183,7 @@ func init() {
 			roots := rootsOf(env, g, []string{"pkg/prebuild:getFamily", "pkg/prebuild/directive:filterRuleForUs", "pkg/prebuild/directive:filter"})
 			reach := frame.Reachable(env.Prog, roots)
 			g.Static = append(g.Static, frame.MapRanges(env.Prog, reach, mapRangeJustifications(env), checkJustification(env))...)
+			g.Static = append(g.Static, boundedC03Filter(env))
 			if fn := env.Prog.Func("pkg/prebuild/directive", "Run"); fn != nil {
 				g.addFunc(env, fn)
 				g.Static = append(g.Static, frame.DirectiveRunShape(env.Prog, fn))
